@@ -271,8 +271,17 @@ def run(ctx, col: Collector):
         # TableBlueprint.build: index subjects are elements of result.columns
         from ..inline import inlined_info
         tb = inlined_info(idx, idx.func(BP, 'TableBlueprint.build'), depth=2)
+        # the list that becomes <index>.subjects, whatever it is called: what is appended to it
+        subj_lists = {norm(a.value) for a in ast.walk(tb.node) if isinstance(a, ast.Assign) and len(a.targets) == 1 and isinstance(a.targets[0], ast.Attribute)
+                      and a.targets[0].attr == 'subjects' and isinstance(a.value, ast.Name)}
+        # (a helper's result variable stands for the list the helper built)
+        for a in ast.walk(tb.node):
+            if isinstance(a, ast.Assign) and len(a.targets) == 1 and isinstance(a.targets[0], ast.Name) and norm(a.targets[0]) in subj_lists and isinstance(a.value, ast.Name):
+                subj_lists.add(a.value.id)
         apps = [n for n in ast.walk(tb.node) if isinstance(n, ast.Call) and isinstance(n.func, ast.Attribute) and n.func.attr == 'append'
-                and 'subject' in norm(n.func.value)]
+                and (norm(n.func.value) in subj_lists or 'subject' in norm(n.func.value))]
+        if not apps and any(isinstance(a, ast.Assign) and isinstance(a.targets[0], ast.Attribute) and a.targets[0].attr == 'subjects' for a in ast.walk(tb.node)):
+            raise Unrecognised('TableBlueprint.build assigns <index>.subjects from something this rule cannot follow', tb.node)
         n_col = 0
         for a in apps:
             tag = origin(a.args[0], tb.node)
@@ -662,28 +671,37 @@ def key_holder_dispatch(ctx, col: Collector, rule: str):
     if not clauses:
         raise Unrecognised('get_references_for_sql does not select from model.database.refs in a recognised form', fi.node)
     seen: Dict[str, List[str]] = {}
-    for test, rv in clauses:
-        conj = test.values if isinstance(test, ast.BoolOp) and isinstance(test.op, ast.And) else [test]
-        ks = None
-        for c in conj:
-            ks = ks or kinds_of_test(c, rv)
-        if not ks:
-            raise Unrecognised(f'selection clause `{norm(test)[:60]}` does not test the reference kind', test)
+    # the selection is the disjunction of the clauses; evaluated once per kind constant with every test on `<ref>.type` decided by that kind (sa/peval.py),
+    # what is left over must be "ref.table<N> is the rendered table" (or nothing, for a kind the table never lists)
+    from ..peval import residual
+    rvs = {rv for _, rv in clauses}
+    if len(rvs) != 1:
+        raise Unrecognised('get_references_for_sql selects with several loop variables', fi.node)
+    rv = next(iter(rvs))
+    whole = clauses[0][0] if len(clauses) == 1 else ast.BoolOp(op=ast.Or(), values=[t for t, _ in clauses])
+    for k in sorted(consts):
+        r = residual(whole, f'{rv}.type', k)
+        if isinstance(r, ast.Constant) and r.value is False:
+            continue
         side = None
         how = ''
-        for c in conj:
-            t = term(c, True)
+        t = term(r, True)
+        for sd in ('1', '2'):
+            if t in (('eq', *sorted((f'{rv}.table{sd}', p))), ('is', *sorted((f'{rv}.table{sd}', p)))):
+                side, how = sd, 'object'
+        if side is None:
             for sd in ('1', '2'):
-                if t in (('eq', *sorted((f'{rv}.table{sd}', p))), ('is', *sorted((f'{rv}.table{sd}', p)))):
-                    side, how = sd, 'object'
-                elif f'{rv}.table{sd}' in norm(c) and p in norm(c) and side is None:
-                    side, how = sd, f'`{norm(c)}`'
-        for k in ks:
-            seen.setdefault(k, []).append(side or '?')
-            col.check(how == 'object', rule, f'get_references_for_sql:{k}:compares-tables',
-                      f'`{consts.get(k, k)}`: the rendered table is compared with ref.table{side} as an object',
-                      f'for `{consts.get(k, k)}` references get_references_for_sql decides ownership with {how or "a test that is not `ref.table<N> == <table>`"} instead of comparing the '
-                      f'table objects: tables that share a name (in different schemas) both claim the reference', node=test, file=fi.file)
+                if f'{rv}.table{sd}' in norm(r) and side is None:
+                    side, how = sd, f'`{norm(r)[:70]}`'
+        if side is None and isinstance(r, ast.Constant) and r.value is True:
+            how = 'no test at all (every table lists the reference)'
+        if side is None and f'{rv}.type' in norm(r):
+            raise Unrecognised(f'selection clause `{norm(whole)[:60]}` tests the reference kind in a form that is not decided by the kind constant', whole)
+        seen.setdefault(k, []).append(side or '?')
+        col.check(how == 'object', rule, f'get_references_for_sql:{k}:compares-tables',
+                  f'`{consts.get(k, k)}`: the rendered table is compared with ref.table{side} as an object',
+                  f'for `{consts.get(k, k)}` references get_references_for_sql decides ownership with {how or "a test that is not `ref.table<N> == <table>`"} instead of comparing the '
+                  f'table objects: tables that share a name (in different schemas) both claim the reference', node=fi.node, file=fi.file)
     for k, hside in sorted(holders.items()):
         got = seen.get(k, [])
         col.check(got == [hside], rule, f'get_references_for_sql:{k}:key-holder',
